@@ -6,6 +6,30 @@ import os
 HERE = os.path.dirname(os.path.dirname(os.path.abspath(__file__)))
 
 CLAIMS = {
+    "C18": dict(
+        text="Lean 4 theorems over a model of one store as a program of I/O primitives (makedirs, open, "
+             "write*, close) run under an injected failure or an interruption at ANY primitive with ANY number "
+             "of stream bytes written, and of the reader on what is left: a failure is always reported as a "
+             "data-access error and success only when the whole stream is on disk; MAIN: afterwards a reader "
+             "gets what it got before, or exactly the new array, or an error - never another array - for any "
+             "codec refusing strict prefixes of its output; raw meets that hypothesis for every item size "
+             "(proved) and the statement is given outright for raw, plain or gzip; a shard file with a zeroed "
+             "index placeholder followed by ANY prefix of data and indices lists no chunk, for every sharding "
+             "specification, and one shorter than the placeholder is refused; failing HTTP requests are errors "
+             "for both readers. Tie/oracle: call-site level injection - for EVERY recorded I/O call of every "
+             "operation of the file accessor (4 layouts) and of sharded write sessions and fetches x {ENOSPC, "
+             "EACCES, EIO, ENOENT}, plus a forked child killed before every call and in the middle of every "
+             "write; fresh readers afterwards; outcome / file state / read-back compared with the Lean model; "
+             "real kernel failures (RLIMIT_FSIZE, /dev/full); every strict prefix of chunk files (raw, "
+             "compressed_segmentation, jpeg x plain, gzip) and of shard files; every request of HTTP operations "
+             "failing 9 ways.",
+        note="Trusted: Lean kernel; standard axioms; hand-written primitive-level model (tie = exhaustive over "
+             "the recorded traces per dataset); gzip refusing strict prefixes and compressed_segmentation/jpeg "
+             "refusing strict prefixes are hypotheses validated on every prefix tried, not theorems; kernel "
+             "write-back/power-loss behaviour and torn final index writes are outside the model.",
+        technique="Lean 4 proof (case analysis over failure/interruption events, prefix rejection, zero-index "
+                  "shard) + exhaustive call-site fault and kill injection on the real accessors",
+        ref="DESIGN.md §6 C18"),
     "C20": dict(
         text="Lean 4 theorems over an exact model of readable_count (float64 rounding of the count, "
              "round-half-even formatting, prefix table regenerated from the source): for every n < 999·2^60 "
